@@ -167,3 +167,32 @@ SPECS += [
                "implies(v == pmin, r2[0] == r1[0])",
                "implies(v == pmax, r2[0] == r1[1])"]},
 ]
+
+
+# ---- RescaleToBounds with the log pre-rescaling: round trip ---------------
+SPECS += [
+    {"name": "RescaleToBounds(log pre-rescaling):inverse∘forward",
+     "first": (RR, "RescaleToBounds.reparameterise#pre"),
+     "second": (RR, "RescaleToBounds.inverse_reparameterise#pre"),
+     "self_shape": "RescaleToBoundsPre",
+     "params": {"x": XS, "x_prime": XP, "log_j": "Seq(Real)"},
+     "assume": ["len(x) == len(x_prime) and len(log_j) == len(x)",
+                "self.has_pre_rescaling and not self.has_post_rescaling",
+                "forall(i, 0, len(x), x['a'][i] > 0 and x['b'][i] > 0)"] + [
+         f"self.bounds['{p}'][0] < self.bounds['{p}'][1] and "
+         f"self._rescale_factor['{p}'] > 0" for p in "ab"],
+     "args1": ["x", "x_prime", "log_j", "False"],
+     "args2": ["x", "x_prime", "log_j"],
+     "prove": [
+         # stepping stone: the argument of the final exponential is log x
+         "forall(i, 0, len(x), " + " and ".join(
+             f"{_w(p)} * (x_prime['{p}_prime'][i] - "
+             f"self._rescale_shift['{p}']) / self._rescale_factor['{p}'] + "
+             f"self.bounds['{p}'][0] + self.offsets['{p}'] == "
+             f"LOG(old(x['{p}'])[i])" for p in "ab") + ")",
+         # (the inverse returns exp of that argument -- its postcondition --
+         # so the parameters come back as exp(log x) = x; that last step is
+         # the exp / log law and is not asked of the solver here)
+         ROUND[1],
+         "forall(i, 0, len(x), log_j[i] == old(log_j)[i])"]},
+]
